@@ -4,6 +4,7 @@ import KcpVerif.Lemmas.KcpProbe
 import KcpVerif.Lemmas.SysDrainSnd
 import KcpVerif.Lemmas.SysDrainProbe4
 import KcpVerif.Lemmas.SysDrainFull
+import KcpVerif.Lemmas.SysDrainFull2
 /-! C03 — a stalled reader throttles the sender and transfer resumes afterwards. -/
 namespace KcpVerif.Props
 open KcpVerif KcpVerif.Gen KcpVerif.Kcp KcpVerif.Live
@@ -550,29 +551,28 @@ queue is not full from now on), the links are fair, the writer has stopped.  The
 completes: the window is re-opened by a probe round (`C03_zero_window_probe_bound`), the queued segments
 are numbered and acknowledged one stage after the other (Lemmas/SysDrainFull.lean).  Hypotheses as in
 `C02_drain_general_partial` (Props/C02.lean): B's queue never full after the return (`QB` in every
-state), head timers within `Rmax`, a send window at A, nothing stale on its way to A at the return
-(`FreshBa`); congestion control may be on or off. -/
+state), head timers within `Rmax`, a send window at A; congestion control may be on or off; stale
+`wnd = 0` frames still on their way to A at the return are covered (they arrive within `D`). -/
 
 open KcpVerif.Sys KcpVerif.SysC in
 theorem C03_resume_partial (A B : Kcp) (D t0 : Nat) (ndA ndB : Bool) (hinit : ConsInit A B)
     (hpw : A.probe_wait = 0) (hIA : A.interval.toNat < 2 ^ 29) (pre : List NetEv)
     (hpre : NetNoWrap A.snd_nxt (Sys.init A B D t0 ndA ndB) pre) (Rmax : Nat) (hR : Rmax + A.interval.toNat < 2 ^ 31)
-    (hfresh : FreshBa (netRun (Sys.init A B D t0 ndA ndB) pre))
     (evs : List Ev) (hns : ∀ ev ∈ evs, isSend ev = false)
     (hr : RunP (FullHyp ⟨A.snd_nxt, A.conv, 0, 0, 0⟩ Rmax A.interval.toNat) (netRun (Sys.init A B D t0 ndA ndB) pre) evs)
-    (hnow : (netRun (Sys.init A B D t0 ndA ndB) pre).now + (netRun (Sys.init A B D t0 ndA ndB) pre).A.waitSnd *
+    (hnow : (netRun (Sys.init A B D t0 ndA ndB) pre).now + (netRun (Sys.init A B D t0 ndA ndB) pre).D + 1 +
+      (netRun (Sys.init A B D t0 ndA ndB) pre).A.waitSnd *
       (fullStage Rmax A.interval.toNat B.interval.toNat (netRun (Sys.init A B D t0 ndA ndB) pre).D + 1) ≤
       (Sys.run (netRun (Sys.init A B D t0 ndA ndB) pre) evs).now) :
     (Sys.run (netRun (Sys.init A B D t0 ndA ndB) pre) evs).A.waitSnd = 0 := by
   obtain ⟨hi, hpi⟩ := inv_pinv_netRun (by omega) pre _ (inv_init A B D t0 ndA ndB hinit)
     (pinv_init A B D t0 ndA ndB hpw) hpre
-  exact drain_full_all hIA hR _ _ ⟨hi, hpi, hfresh⟩ (Nat.le_refl _) evs hns hr hnow
+  exact drain_full_any hIA hR hi hpi (arrOk_netRun pre _ (arrOk_init A B D t0 ndA ndB)) evs hns hr hnow
 
 /-! what `C03_resume_partial` does not cover (the full statement stays `C03_resume_full` above):
 a receive window that a burst can fill between two reads (`QB` fails in that
-state; the reader condition `QOk` of `C02_drain_partial` should suffice), stale `wnd = 0` frames still on
-their way to A at the return (they arrive within `D`), and the derivation of `TmrOk` from the number of
-earlier timeouts. -/
+state; the reader condition `QOk` of `C02_drain_partial` should suffice), and the derivation of `TmrOk`
+from the number of earlier timeouts. -/
 
 /-! non-vacuity of `C03_resume_partial`, and the scenario evaluated: B has a receive window of 4; A
 writes six one-byte messages and flushes while nobody reads: B queues four, buffers two, acknowledges all
